@@ -24,51 +24,8 @@ Proof. unfold between. intro H. apply andb_true_iff in H. lia. Qed.
 Lemma grace_nonneg m : 0 <= grace m.
 Proof. destruct m; simpl; unfold secs, ns_per_s; lia. Qed.
 
-(** [ttl_fn] is the value whose positive part [store] hands to the cache *)
-Lemma store_ttl_fn f m st exp now :
-  expiry_mech m = true -> store f m st exp now = pos (ttl_fn f m st exp now).
-Proof. destruct m; simpl; intro H; try discriminate; reflexivity. Qed.
-
 Lemma pos_pos t : 0 < t -> pos t = Some t.
 Proof. intro H. unfold pos. assert ((t >? 0) = true) by lia. rewrite H0. reflexivity. Qed.
-
-Lemma ttl_fn_zero_cfg f m exp now : ttl_fn f m (Some 0) exp now = 0.
-Proof.
-  destruct m; simpl; try reflexivity;
-    unfold ttl_introspection, ttl_jwt_key, ttl_client_credentials, ttl_generic, ttl_ptr; simpl; reflexivity.
-Qed.
-
-(** ** [CFn] *)
-
-Theorem check_sound_fn : forall f m st exp now dmax o,
-  0 <= dmax <= max_delay ->
-  let v := check f (CFn m st exp now dmax o) in
-  v_corr v = true -> v_guards v = [] -> v_prop v = true.
-Proof.
-  intros f m st exp now dmax o Hd v Hc Hg. subst v. simpl in *.
-  apply guards1 in Hg. apply orb_false_iff in Hg as [Hg _].
-  apply between_spec in Hc as [_ Hhi].
-  apply andb_true_iff. split.
-  - (* within lifetime, at most the configured ttl *)
-    unfold fn_prop. destruct (o >? 0) eqn:Eo; [|reflexivity].
-    assert (Ho : 0 < o) by lia.
-    destruct (expiry_mech m) eqn:Em.
-    2:{ destruct m; try discriminate; simpl in Hhi; lia. }
-    set (hi := ttl_fn f m st exp now) in *.
-    assert (Hs : store f m st exp now = Some hi).
-    { rewrite store_ttl_fn by exact Em. apply pos_pos. lia. }
-    unfold stored_ok. apply andb_true_iff; split; [apply andb_true_iff; split|].
-    + lia.
-    + destruct st as [c|]; simpl; [|reflexivity].
-      pose proof (config_only_shortens f m c exp now hi Hs). lia.
-    + destruct exp as [e|]; simpl; [|reflexivity].
-      destruct (ttl_within_lifetime f m st e now dmax hi Em Hg Hs Hd) as [_ Hlt].
-      unfold limit. pose proof (grace_nonneg m). lia.
-  - (* zero disables *)
-    unfold fn_zero_prop. destruct (cfg_zero st) eqn:Ez; [|reflexivity].
-    destruct st as [c|]; [|discriminate]. simpl in Ez. assert (c = 0) by lia. subst c.
-    rewrite ttl_fn_zero_cfg in Hhi. lia.
-Qed.
 
 (** ** [CExec] *)
 
@@ -111,8 +68,7 @@ Proof.
   apply guards2 in Hg as [Hg1 Hg3]. apply orb_false_iff in Hg1 as [Hg1 _].
   set (st := exec_state f m conf rule) in *.
   unfold exec_corr in Hc. fold st in Hc.
-  apply andb_true_iff in Hc as [Hc Htok]. apply andb_true_iff in Hc as [Hc Hset].
-  apply andb_true_iff in Hc as [Hok Hlook]. apply eqb_prop in Hlook.
+  apply andb_true_iff in Hc as [Hc Htok]. apply andb_true_iff in Hc as [Hlook Hset].
   unfold exec_prop. apply andb_true_iff. split.
   - (* zero disables *)
     destruct (cfg_zero (spec_cfg m conf rule) && negb (mech_eqb m MJwtFin)) eqn:Ez; [|reflexivity].
@@ -121,16 +77,13 @@ Proof.
     assert (c = 0) by lia. subst c.
     assert (Hm' : m <> MJwtFin) by (intro; subst m; discriminate).
     destruct (zero_disables f m conf rule Hm' Ecfg Hg3) as [Hl Hst]. fold (exec_state f m conf rule) in Hl, Hst. fold st in Hl, Hst.
-    rewrite Hlook, Hl. simpl.
-    destruct (fresh_accepted m exp now).
-    + rewrite !Hst in Hset. destruct (eo_set o); [discriminate | reflexivity].
-    + destruct (eo_set o); [discriminate | reflexivity].
+    rewrite Hl in Hlook. destruct (eo_lookup o); [discriminate|]. simpl.
+    destruct (eo_set o) as [t|]; [|reflexivity].
+    apply andb_true_iff in Hset as [_ Hset]. rewrite Hst in Hset. discriminate.
   - destruct (eo_set o) as [t|] eqn:Et; [|reflexivity].
-    destruct (fresh_accepted m exp now); [|discriminate].
-    destruct (store f m st exp now) as [hi|] eqn:Ehi; [|destruct (store f m st exp (now + dmax)); discriminate].
-    destruct (store f m st exp (now + dmax)) as [lo|] eqn:Elo; [|discriminate].
-    apply between_spec in Hset as [Hlo Hhi].
-    pose proof (store_positive _ _ _ _ _ _ Elo) as Hlop.
+    apply andb_true_iff in Hset as [Hpos Hset].
+    destruct (store f m st exp now) as [hi|] eqn:Ehi; [|discriminate].
+    assert (Hhi : t <= hi) by lia. assert (Htp : 0 < t) by lia.
     apply andb_true_iff. split.
     + unfold stored_ok. apply andb_true_iff; split; [apply andb_true_iff; split|].
       * lia.
@@ -143,7 +96,7 @@ Proof.
         destruct (ttl_within_lifetime f m st e now dmax hi Em Hg1 Ehi Hd) as [_ Hlt].
         unfold limit. pose proof (grace_nonneg m). lia.
     + destruct m; try reflexivity. destruct (eo_tokexp o) as [te|] eqn:Ete; [|reflexivity].
-      apply between_spec in Htok as [Hte _].
+      assert (Hte : unix (now + val st) <= te) by lia.
       simpl in Ehi. destruct (val st >? secs 5) eqn:Ev; [|discriminate]. inversion Ehi; subst hi.
       unfold ttl_jwt_finalizer in Hhi.
       pose proof (unix_secs_lower (now + val st)).
@@ -153,74 +106,36 @@ Qed.
 
 (** ** [CHttp] *)
 
-Lemma http_none_when_nonpositive f cachable life dflt now2 l :
-  0 <= now2 ->
-  http_lifetime life dflt 0 = Some l -> l <= 0 ->
-  cachable && g_F2 f life dflt 0 = false ->
-  http_store_decision f cachable life dflt 0 now2 = None.
-Proof.
-  intros Hn Hl Hle Hg. unfold http_store_decision. destruct cachable; simpl; [|reflexivity].
-  simpl in Hg. unfold g_F2 in Hg. rewrite Hl in Hg.
-  assert (Hleb : (l <=? 0) = true) by lia. rewrite Hleb in Hg.
-  destruct (fx2 f); [|discriminate]. simpl.
-  unfold http_lifetime in Hl. destruct life as [e|].
-  - inversion Hl; subst. assert (Ht : (e - now2 <=? 0) = true) by lia. rewrite Ht. reflexivity.
-  - destruct (dflt =? 0); [reflexivity|]. inversion Hl; subst.
-    assert (Ht : (l - now2 <=? 0) = true) by lia. rewrite Ht. reflexivity.
-Qed.
+(** what the driver guarantees for an http case: a non-negative Age value, and
+    both clock readings of the bracket in one second (so the apparent age is
+    the same at both ends) *)
+Definition wf_http (h : hvals) (now dmax : Z) : Prop :=
+  0 <= hv_age h /\ 0 <= dmax.
 
-Lemma http_decision_le f cachable life dflt t :
-  http_store_decision f cachable life dflt 0 0 = Some t ->
-  match http_lifetime life dflt 0 with Some l => t <= l | None => False end.
-Proof.
-  unfold http_store_decision, http_lifetime. destruct cachable; simpl; [|discriminate].
-  destruct life as [e|].
-  - destruct (fx2 f && (e - 0 <=? 0)); intro H; inversion H; lia.
-  - destruct (dflt =? 0); [discriminate|].
-    destruct (fx2 f && (dflt - 0 <=? 0)); intro H; inversion H; lia.
-Qed.
-
-Lemma http_sound_core : forall f b cachable life dflt dmax o_set o_hit,
-  0 <= dmax ->
-  http_corr f b cachable life dflt dmax o_set o_hit = true ->
-  guards [(2, cachable && g_F2 f life dflt 0)] = [] ->
-  http_prop life dflt o_set o_hit = true.
-Proof.
-  intros f b cachable life dflt dmax o_set o_hit Hd Hc Hg.
-  apply guards1 in Hg. unfold http_corr in Hc. unfold http_prop.
-  assert (Hown : match life with Some l => Some l | None => if dflt =? 0 then None else Some dflt end
-                 = http_lifetime life dflt 0).
-  { unfold http_lifetime. destruct life; [f_equal; lia | reflexivity]. }
-  rewrite Hown. clear Hown.
-  destruct (http_lifetime life dflt 0) as [l|] eqn:El.
-  - apply andb_true_iff. split.
-    + destruct (l <=? 0) eqn:Ele; [|reflexivity].
-      assert (Hl : l <= 0) by lia.
-      rewrite (http_none_when_nonpositive f cachable life dflt 0 l) in Hc by (try lia; assumption).
-      rewrite (http_none_when_nonpositive f cachable life dflt dmax l) in Hc by (try lia; assumption).
-      destruct o_set; [discriminate | exact Hc].
-    + destruct o_set as [t|]; [|reflexivity].
-      destruct (0 <? t) eqn:Et; [|reflexivity].
-      destruct (http_store_decision f cachable life dflt 0 0) as [hi|] eqn:Ehi;
-        [|destruct (http_store_decision f cachable life dflt 0 dmax); discriminate].
-      destruct (http_store_decision f cachable life dflt 0 dmax) as [lo|]; [|discriminate].
-      apply andb_true_iff in Hc as [Hb _]. apply between_spec in Hb as [_ Hhi].
-      pose proof (http_decision_le _ _ _ _ _ Ehi) as Hle. rewrite El in Hle. lia.
-  - (* no lifetime at all: nothing may be served from cache *)
-    assert (Hn : forall n2, http_store_decision f cachable life dflt 0 n2 = None).
-    { intro n2. unfold http_store_decision. destruct cachable; simpl; [|reflexivity].
-      unfold http_lifetime in El. destruct life; [discriminate|]. destruct (dflt =? 0); [reflexivity | discriminate]. }
-    rewrite !Hn in Hc. destruct o_set; [discriminate | exact Hc].
-Qed.
-
-Theorem check_sound_http : forall f b method_ok vary cachable life dflt dmax o_lookup o_set o_hit,
-  0 <= dmax ->
-  let v := check f (CHttp b method_ok vary cachable life dflt dmax o_lookup o_set o_hit) in
+Theorem check_sound_http : forall f b cachable h dflt now dmax tget o_nsets o_set o_hit,
+  wf_http h now dmax ->
+  let v := check f (CHttp b cachable h dflt now dmax tget o_nsets o_set o_hit) in
   v_corr v = true -> v_guards v = [] -> v_prop v = true.
 Proof.
-  intros f b method_ok vary cachable life dflt dmax o_lookup o_set o_hit Hd v Hc Hg. subst v. simpl in *.
-  apply andb_true_iff in Hc as [_ Hc].
-  eapply http_sound_core; eauto.
+  intros f b cachable h dflt now dmax tget o_nsets o_set o_hit [Hage Hd] v Hc Hg. subst v. simpl in *.
+  apply guards2 in Hg as [Hg2 Hg4]. assert (Hf2 : fx2 f = true) by (destruct (fx2 f); [reflexivity | discriminate]).
+  unfold http_corr in Hc. apply andb_true_iff in Hc as [_ Hc]. unfold http_prop.
+  destruct o_set as [t|].
+  - apply andb_true_iff in Hc as [Hc Hhit]. apply andb_true_iff in Hc as [Hpos Hc].
+    destruct (http_store_hdr f cachable h dflt now now) as [hi|] eqn:Ehi; [|discriminate].
+    destruct (http_hdr_within_rfc f cachable h dflt now now hi Hf2 ltac:(lia) Hage Hg4 Ehi) as (l & Hl & Hp & Hle).
+    rewrite Hl. assert (E1 : (0 <? t) = true) by lia. assert (E2 : (t <=? l) = true) by lia. rewrite E1, E2. simpl.
+    destruct o_hit; [|reflexivity]. simpl in Hhit.
+    (* served from cache: the entry set with ttl [t] is still live at [tget] *)
+    unfold cget, cset in Hhit. destruct b; simpl in Hhit.
+    + assert (E3 : (t =? -2) = false) by lia. rewrite E3 in Hhit. simpl in Hhit.
+      assert (E4 : (t >? 0) = true) by lia. rewrite E4 in Hhit. unfold live in Hhit. simpl in Hhit.
+      destruct (tget <=? t) eqn:E5; [lia | discriminate].
+    + destruct (millis t <=? 0) eqn:Em; simpl in Hhit; [discriminate|].
+      unfold live in Hhit. simpl in Hhit.
+      destruct (tget <? msecs (millis t)) eqn:E5; [|discriminate].
+      pose proof (millis_le t ltac:(lia)). lia.
+  - destruct o_hit; [discriminate|]. destruct (rfc_remaining h dflt now); reflexivity.
 Qed.
 
 (** ** [CCache] *)
